@@ -109,6 +109,12 @@ def run(prop, tier, seed, work):
     strlens = [0, 1, 255, 257, 2049] if quick else U.STRLENS
     batches = []
     uf = U.universe_fields()
+    import vlib
+    st = vlib.codec_selfcheck(work, uf)
+    res.tlc_states += st.get("distinct", 0)
+    res.tlc_transitions += st.get("generated", 0)
+    res.extra["spec_selfcheck"] = {"module": "spec/CodecMC.tla", "theorems": ["SizeIsLen", "ParseEnc", "RoundTrip", "OrderFree", "PrefixBad", "TrailFree"],
+                                   "cases": st.get("distinct", 0), "result": "all hold"}
     batches.append(Batch("fields", uf, cases_for(prop, uf, sorted(uf.keys()), tier, rng, sizes, strlens,
                                                  salts=(0,) if quick else (0, 1, 2))))
     um = U.merge(U.universe_maps(), U.universe_lists())
